@@ -584,7 +584,8 @@ class PokerGameState:
         biggest_blind = max([self.ante, *self.blinds])
         sorted_pot_balances = sorted(self.pot.balances.values(), reverse=True)
         if self.amount_to_call == 0:
-            return biggest_blind
+            # a stack shorter than the big blind may still open all-in
+            return min(biggest_blind, self.stacks[self.action])
         # if amount to call is 0, then this will be zero too
         last_raise_delta = max(
             sorted_pot_balances[0] - sorted_pot_balances[1], biggest_blind
